@@ -935,7 +935,7 @@ WSLICE_SIZES = list(range(65514, 65528)) + list(range(131044, 131064))
 # --------------------------------------------------------------------------- W.reuse
 
 
-def _source_store(d, kind, hash_name, nobj):
+def _source_store(acc, rpd, d, kind, hash_name, nobj):
     """A DiskObjectStore whose only pack holds the first nobj objects of pool E packed with deltas by
     `kind`: git-ref (REF deltas), git-ofs (OFS deltas), dulwich (write_pack deltify=True)."""
     from dulwich.object_store import DiskObjectStore
@@ -947,24 +947,31 @@ def _source_store(d, kind, hash_name, nobj):
     os.makedirs(os.path.join(sd, "pack"))
     stem = os.path.join(sd, "pack", "pack-" + "0" * 39 + "1")
     if kind == "dulwich":
-        with open(stem + ".pack", "wb") as f:
-            P.write_pack_objects(f.write, [(_shafile(t, x, hash_name), None) for t, x in objs], fmt, deltify=True)
-        pd = P.PackData(stem + ".pack", object_format=fmt)
         try:
-            pd.create_index(stem + ".idx", version=2)
-        finally:
-            pd.close()
+            with open(stem + ".pack", "wb") as f:
+                P.write_pack_objects(f.write, [(_shafile(t, x, hash_name), None) for t, x in objs], fmt, deltify=True)
+            pd = P.PackData(stem + ".pack", object_format=fmt)
+            try:
+                pd.create_index(stem + ".idx", version=2)
+            finally:
+                pd.close()
+        except Exception as e:
+            acc.violation("write:write_pack_objects+create_index:raises-%s:%s%s" % (_exc_name(e), _exc_site(e), _hcls(hash_name)),
+                          "W.reuse source store: %s" % str(e)[:160], rpd)
+            return None
     else:
         data = _git_pack(hash_name, _names(objs, hash_name), ["--depth=50", "--window=10"] + (["--delta-base-offset"] if kind == "git-ofs" else []))
         with open(stem + ".pack", "wb") as f:
             f.write(data)
         _git_index(hash_name, os.path.dirname(stem), stem + ".pack", os.path.basename(stem), None)
     with open(stem + ".pack", "rb") as f:
-        pinfo = R.parse_pack(f.read(), hash_name)
-    res = R.resolve_pack(pinfo)
-    if not any(r.kind != "full" for r in res):
+        pr = oracle_pack(acc, "W.reuse-source", f.read(), objs, hash_name, rpd, writer="dulwich" if kind == "dulwich" else "C git",
+                         ordered=False)
+    if pr is None:
+        return None  # dulwich wrote an unusable source pack: violation recorded
+    if not any(r.kind != "full" for r in pr[1]):
         raise HarnessError("W.reuse: source pack (%s) holds no deltas" % kind)
-    return DiskObjectStore(sd, object_format=fmt), res
+    return DiskObjectStore(sd, object_format=fmt), pr[1]
 
 
 def case_wreuse(acc, kind, idxs, hash_name, reuse, deltify, window, thin, shared=None):
@@ -988,7 +995,10 @@ def case_wreuse(acc, kind, idxs, hash_name, reuse, deltify, window, thin, shared
     acc.count("W.reuse_cases")
     d = fresh_dir("w")
     try:
-        store, _src = _source_store(d, kind, hash_name, NOBJ)
+        src = _source_store(acc, rpd, d, kind, hash_name, NOBJ)
+        if src is None:
+            return
+        store = src[0]
         packpath = os.path.join(d, "p.pack")
         try:
             try:
@@ -1569,7 +1579,19 @@ def work(task):
     acc = Acc()
     fn = globals()["case_" + kind]
     for args in items:
-        fn(acc, *args, shared=shared)
+        try:
+            fn(acc, *args, shared=shared)
+        except HarnessError:
+            raise
+        except Exception as e:
+            # an exception that comes out of dulwich at a place where the case function did not expect
+            # one is still dulwich's behaviour (a violation of the round trip), not a harness error;
+            # anything raised by the harness or the reference model itself is
+            tb = traceback.extract_tb(e.__traceback__)
+            if not tb or "/dulwich/" not in tb[-1].filename:
+                raise
+            acc.violation("unexpected:%s:raises-%s:%s" % (fn.__name__, _exc_name(e), _exc_site(e)),
+                          "%r: %s" % (args, str(e)[:200]), rp(fn, *[list(a) if isinstance(a, tuple) else a for a in args]))
     return acc
 
 
@@ -1631,7 +1653,10 @@ def run(ctx):
     shared = fresh_dir("claims")
     tasks = []
 
+    sample_src = {}
+
     def add(kind, items, parts=J):
+        sample_src[kind] = list(items)
         items = ctx.order(items)
         for part in split(items, parts):
             tasks.append((kind, part, shared))
@@ -1707,8 +1732,16 @@ def run(ctx):
     for fam, cnt in counts.items():
         if n.get(fam + "_cases") != cnt:
             raise HarnessError("family %s: %r cases evaluated, %d enumerated" % (fam, n.get(fam + "_cases"), cnt))
+    dist = sorted(v for k, v in acc.notes.items() if k.startswith("W.ofs:distance"))
     acc.notes = {k: v for k, v in acc.notes.items() if not k.startswith("W.ofs:distance")}
+    acc.note("W.ofs:distances-swept", "%d distinct: %s" % (len(set(dist)), _ranges(dist)))
     ctx.level = "exploration"
+    ctx.coverage["outcome_classes"] = dict(sorted(acc.classes.items()))
+    ctx.coverage["samples"] = [
+        {"family": fam, "position": pos, "case": repr(args)[:300]}
+        for fam, lst in sorted(sample_src.items())
+        for pos, args in (("first", lst[0]), ("median", lst[len(lst) // 2]), ("last", lst[-1]))
+    ][:36]
     ctx.coverage.update(
         evaluations=total,
         distinct_nontrivial=len([c for c in acc.classes if not c.endswith("evaluated")]),
@@ -1746,6 +1779,19 @@ def run(ctx):
         "dulwich.pack bound to the Rust extension rebuilt from the working tree (apply_delta, create_delta, bisect_find_sha)",
         "which of several identical packs is sent to git depends on worker timing; the set of distinct packs (and every count) does not",
     ]
+
+
+def _ranges(vals):
+    vals = sorted(set(vals))
+    out = []
+    i = 0
+    while i < len(vals):
+        j = i
+        while j + 1 < len(vals) and vals[j + 1] == vals[j] + 1:
+            j += 1
+        out.append("%d" % vals[i] if i == j else "%d-%d" % (vals[i], vals[j]))
+        i = j + 1
+    return ",".join(out)
 
 
 def replay(ctx, obj):
